@@ -626,7 +626,9 @@ impl PacketReceiver for IceConn {
                                 *probation_guard = None; // drop state
                                 drop(probation_guard);
 
-                                if win_addr != current_remote {
+                                // `current_remote` is stale here: the tentative update
+                                // above may already have moved `remote_addr` to `addr`.
+                                if win_addr != current_remote || win_addr != addr {
                                     *self.remote_addr.write() = win_addr;
                                 }
                                 self.rtp_latched.store(true, Ordering::Relaxed);
